@@ -91,6 +91,7 @@ DEFAULT_CFG = dict(
     p_switch=0.2,
     time_mode='exact',  # exact | racy
     p_racy=0.05,
+    racy_horizon=0.1,  # only timers due within this many virtual seconds may fire while threads are runnable
     line_p=0.0,  # probability of pre-empting at a line event in mpservice code
     max_steps=400_000,
     max_time=1000.0,  # virtual seconds after start; exceeded => no-progress
@@ -114,6 +115,7 @@ class Sim:
         self.p_switch = c['p_switch']
         self.time_mode = c['time_mode']
         self.p_racy = c['p_racy']
+        self.racy_horizon = c['racy_horizon']
         self.line_p = c['line_p']
         self.max_steps = c['max_steps']
         self.t0 = 1000.0
@@ -320,7 +322,8 @@ class Sim:
         while True:
             rs = [t for t in threads if t.state == 'runnable']
             if rs:
-                if self.time_mode == 'racy' and self._drop_stale_timers() and self.choose(2, p0=1.0 - self.p_racy):
+                if self.time_mode == 'racy' and self._drop_stale_timers() and \
+                        self.timers[0][0] - self.now <= self.racy_horizon and self.choose(2, p0=1.0 - self.p_racy):
                     self.racy_fired += 1
                     self.fire_next_timer()
                     if self.now > self.max_time:
